@@ -4,6 +4,8 @@
 use crate::case::*;
 use crate::interp::*;
 use crate::model::Model;
+#[allow(unused_imports)]
+use crate::interp::CUR_STEP;
 use crate::oracle::*;
 use crate::queue::*;
 use crate::types::*;
@@ -224,6 +226,35 @@ where
             let v: Vec<Elem> = it.map(cv).collect();
             AdaptOut { len: Some(v.len()), hint, seq: v.into_iter().map(|e| (-1i64, e)).collect() }
         }
+        Comp::NthThenNthBack | Comp::NextsThenNthBack | Comp::BacksThenNth => {
+            let mut it = it;
+            let mut seq: Vec<(i64, Elem)> = Vec::new();
+            match comp {
+                Comp::NthThenNthBack => {
+                    seq.extend(it.nth(a).map(|e| (-3, cv(e))));
+                    seq.extend(it.nth_back(b).map(|e| (-4, cv(e))));
+                }
+                Comp::NextsThenNthBack => {
+                    for _ in 0..a {
+                        seq.extend(it.next().map(|e| (-5, cv(e))));
+                    }
+                    seq.extend(it.nth_back(b).map(|e| (-4, cv(e))));
+                }
+                _ => {
+                    for _ in 0..a {
+                        seq.extend(it.next_back().map(|e| (-6, cv(e))));
+                    }
+                    seq.extend(it.nth(b).map(|e| (-3, cv(e))));
+                }
+            }
+            let len = it.len();
+            let hint = it.size_hint();
+            seq.extend(it.map(plain));
+            AdaptOut { len: Some(len), hint, seq }
+        }
+        Comp::SkipStepBy => fin!(it.skip(a).step_by(b.max(1)), plain),
+        Comp::RevSkip => fin!(it.rev().skip(a), plain),
+        Comp::RevStepBy => fin!(it.rev().step_by(a.max(1)), plain),
     }
 }
 
@@ -273,6 +304,7 @@ pub fn adapt_plain<I: Iterator<Item = T>, T, C: Fn(T) -> Elem + Copy>(it: I, cv:
             let v: Vec<Elem> = it.map(cv).collect();
             Some(AdaptOut { len: None, hint, seq: v.into_iter().map(|e| (-1i64, e)).collect() })
         }
+        Comp::SkipStepBy => fin!(it.skip(a).step_by(b.max(1)), plain),
         _ => None,
     }
 }
@@ -416,17 +448,20 @@ impl<'c, Q: Queue> Interp<'c, Q> {
                     }
                 }
             }
-            // the references are still alive here: write through them (distinct ids only, so that
-            // an aliasing defect is reported as such and not as a lost write)
+            // the references are still alive here: write through every one of them, as a client would.
+            // (If the iterator handed out an element twice the second write lands on the rewritten
+            // value, so the aliasing also shows as a content difference.)
             let mut done = std::collections::BTreeSet::new();
             for (k, p) in held.iter_mut() {
-                if bit(rwmask, k.id) && done.insert(k.id) {
+                if bit(rwmask, k.id) {
                     let np = r.apply(k.id, p.v);
                     p.v = np;
                     if let Some(t) = tagw {
                         k.tag = t;
                     }
-                    writes.push((k.id, k.tag, np));
+                    if done.insert(k.id) {
+                        writes.push((k.id, k.tag, np));
+                    }
                 }
             }
             drop(held);
@@ -528,6 +563,7 @@ impl<'c, Q: Queue> Interp<'c, Q> {
                 self.do_sorted(SortedHow::Iter, prog);
                 return;
             }
+            ItKind::IterMut => return,
         };
         let mut out = Vec::new();
         let (yielded, exhausted) = validate_log(&log, &before, Group::IterStd, 0, false, &mut out);
@@ -606,6 +642,19 @@ impl<'c, Q: Queue> Interp<'c, Q> {
                     v
                 },
             ),
+            ItKind::IterMut => {
+                self.opname = "adaptor_iter_mut";
+                CUR_STEP.with(|c| c.set((self.step, self.opname)));
+                let mut v = Vec::new();
+                {
+                    let mut c = self.q.clone();
+                    let mut it = c.iter_mut();
+                    while let Some((k, p)) = it.next() {
+                        v.push((k.id, k.tag, p.v));
+                    }
+                }
+                (self.q.clone().iter_mut_adapt(comp, a, b), v)
+            }
             ItKind::Sorted => {
                 let mut v = Vec::new();
                 let mut it = self.q.clone().into_sorted_iter();
@@ -620,7 +669,7 @@ impl<'c, Q: Queue> Interp<'c, Q> {
             // judged by the iterator programs; the differential below would be meaningless
             return;
         }
-        let want = if which == ItKind::Sorted && !Q::DOUBLE {
+        let want = if matches!(which, ItKind::Sorted | ItKind::IterMut) && !Q::DOUBLE {
             adapt_plain(reference.into_iter(), |e| e, comp, a, b).unwrap()
         } else {
             adapt_full(reference.into_iter(), |e| e, comp, a, b)
@@ -643,6 +692,25 @@ impl<'c, Q: Queue> Interp<'c, Q> {
         } else {
             (got, want)
         };
+        if which == ItKind::IterMut {
+            // C09's business: an element reached twice through an adaptor is the aliasing defect
+            let ids: Vec<u32> = got.seq.iter().filter(|e| e.1 != (0, 0, 0) || e.0 < 0).map(|e| e.1 .0).collect();
+            let mut d = ids.clone();
+            d.sort_unstable();
+            d.dedup();
+            let plain_seq = !matches!(comp, Comp::Peekable | Comp::Rposition | Comp::Count | Comp::Fold | Comp::Chain);
+            if plain_seq && d.len() != ids.len() {
+                self.fail(Group::Alias, "adaptor_yielded_twice", format!("iter_mut().{:?}({},{}) handed out an element twice: ids {:?}", comp, a, b, ids));
+            } else if got.seq != want.seq || (got.len.is_some() && want.len.is_some() && (got.len != want.len || got.hint != want.hint)) {
+                self.fail(
+                    Group::IterMutContract,
+                    "adaptor_iter_mut",
+                    format!("iter_mut().{:?}({},{}) produced {:?} len {:?} hint {:?}; over the plain sequence: {:?} len {:?} hint {:?}", comp, a, b, got.seq, got.len, got.hint, want.seq, want.len, want.hint),
+                );
+            }
+            self.stats.hit("adaptor_iter_mut_run");
+            return;
+        }
         if got.seq != want.seq {
             self.fail(
                 Group::IterStd,
